@@ -9,6 +9,7 @@ THEOREMS = {
             "Backend.C06_flush_log_returns",
             "Backend.C06_flush_log_contract", "Backend.C06_nothing_unflushed_at_raise",
             "Backend.C06_pinned_order_violates", "Backend.C06_removed_logger_sink_not_flushed_unrepaired", "Backend.C06_removed_logger_sink_flushed",
+            "Backend.C06_tie_later_context_not_written", "Backend.C06_tie_earlier_context_written",
             "Backend.C06_erased_logger_sinks_flushed", "Backend.C06_unflushed_sink_reachable",
             "Backend.C06_erased_logger_sink_never_flushed_unrepaired", "Backend.C06_erased_logger_sink_flushed",
             "Obligations.backendB_flush_interval_structure", "Obligations.backendB_startC_f33",
